@@ -515,6 +515,11 @@ Section SkipLoops.
 End SkipLoops.
 Lemma skip_S f p ty b : skip (S f) p ty b = skip_body p (skip f p) f ty b.
 Proof. reflexivity. Qed.
+(* the loops of skipItems / skipEntries are the LIST / MAP loops of skip *)
+Lemma skip_items_eq f p et n r : skip_items f p et n r = sk_list (skip f p) et (S (length r)) n r.
+Proof. reflexivity. Qed.
+Lemma skip_entries_eq f p kt vt n r : skip_entries f p kt vt n r = sk_map (skip f p) kt vt (S (length r)) n r.
+Proof. reflexivity. Qed.
 
 Section DecLoops.
   Variable p : proto.
@@ -576,7 +581,11 @@ Section DecLoops.
                 let seen := slot :: seen in
                 let fexp := type_of (fld_ty fd) in
                 if negb (fty =? fexp) && negb ((fty =? c_TRUE) && (fexp =? c_BOOL)) then
-                  (if has_flag flags f_strict then TErr EMismatch else dl_struct k' r id (nfields + 1) vs seen)
+                  (if has_flag flags f_strict then TErr EMismatch else
+                     tlet r <- dont_expect_eof
+                                 (if ((fty =? c_TRUE) || (fty =? c_BOOL)) && (match p with PCompact => true | PBinary => false end)
+                                  then TOk r else skipf fty r) in
+                     dl_struct k' r id (nfields + 1) vs seen)
                 else
                 let oldf := nth i vs (zero_of (fld_ty fd)) in
                 if (match p with PCompact => true | PBinary => false end) && ((fty =? c_TRUE) || (fty =? c_BOOL)) then
@@ -614,7 +623,7 @@ Section DecLoops.
         tlet (h, r) <- r_list p b in
         let '(n, lt) := h in
         let lt := if lt =? c_TRUE then c_BOOL else lt in
-        if negb (type_of et =? lt) then (if has_flag flags f_strict then TErr EMismatch else TOk (old, r)) else
+        if negb (type_of et =? lt) then (if has_flag flags f_strict then TErr EMismatch else tlet r <- sk_list skipf lt (S (length r)) n r in TOk (old, r)) else
         if n <? 0 then TErr EOther else dl_list et (S (length r)) n [] r
     | ThSet kt =>
         tlet (h, r) <- r_list p b in
@@ -622,15 +631,15 @@ Section DecLoops.
         let lt := if lt =? c_TRUE then c_BOOL else lt in
         if n <? 0 then TErr EOther else
         if n =? 0 then TOk (TvSet true [], r) else
-        if negb (type_of kt =? lt) then (if has_flag flags f_strict then TErr EMismatch else TOk (TvSet true [], r)) else
+        if negb (type_of kt =? lt) then (if has_flag flags f_strict then TErr EMismatch else tlet r <- sk_list skipf lt (S (length r)) n r in TOk (TvSet true [], r)) else
         dl_set kt (S (length r)) n [] r
     | ThMap kt vt =>
         tlet (h, r) <- r_map p b in
         let '(n, mk, mv) := h in
         if n <? 0 then TErr EOther else
         if n =? 0 then TOk (TvMap true [], r) else
-        if negb (type_of kt =? mk) then (if has_flag flags f_strict then TErr EMismatch else TOk (TvMap true [], r)) else
-        if negb (type_of vt =? mv) then (if has_flag flags f_strict then TErr EMismatch else TOk (TvMap true [], r)) else
+        if negb (type_of kt =? mk) then (if has_flag flags f_strict then TErr EMismatch else tlet r <- sk_map skipf mk mv (S (length r)) n r in TOk (TvMap true [], r)) else
+        if negb (type_of vt =? mv) then (if has_flag flags f_strict then TErr EMismatch else tlet r <- sk_map skipf mk mv (S (length r)) n r in TOk (TvMap true [], r)) else
         dl_map kt vt (S (length r)) n [] r
     | ThStruct fs =>
         let vs := match old with TvStruct vs => vs | _ => match zero_of t with TvStruct z => z | _ => [] end end in
@@ -825,23 +834,23 @@ Section DecLoopLemmas.
       destruct (fty =? c_STOP).
       { cbv zeta. match goal with |- context [if ?c then _ else _] => destruct c end; fin. }
       cbv zeta. set (id' := if isd then s16 (id + last) else id). set (slot := id' - minID).
-      assert (HNone : gd mp (length r)
+      assert (HNone : forall seen, gd mp (length r)
                 (tlet r0 <- dont_expect_eof
                              (if ((fty =? c_TRUE) || (fty =? c_BOOL)) && match p with PBinary => false | PCompact => true end
                               then TOk r1 else skipf fty r1) in
                  dl_struct p decf skipf flags fs minID nslots nwords lookup k r0 id' (nf + 1) vs seen)).
-      { eapply gd_bind with (mA := ms) (n := S (length r1)).
+      { clear seen. intros seen. eapply gd_bind with (mA := ms) (n := S (length r1)).
         - apply gd_dee.
           destruct (((fty =? c_TRUE) || (fty =? c_BOOL)) && match p with PBinary => false | PCompact => true end); [fin|].
           eapply gd_mono; [|apply Hskip]; fin.
         - intros r2 H2. eapply gd_mono; [|apply IHk]; fin. }
-      destruct ((slot <? 0) || (slot >=? nslots)) eqn:Eb; [exact HNone|].
-      destruct (lookup id') as [[i fd]|] eqn:El; [|exact HNone].
-      clear HNone. apply Hlk in El.
+      destruct ((slot <? 0) || (slot >=? nslots)) eqn:Eb; [apply HNone|].
+      destruct (lookup id') as [[i fd]|] eqn:El; [|apply HNone].
+      apply Hlk in El.
       destruct (slot / 64 >=? nwords) eqn:Ew; [exfalso; lia|].
       match goal with |- context [if ?c then _ else _] => destruct c end.
-      { destruct (has_flag flags f_strict); [exact I|]. eapply gd_mono; [|apply IHk]; fin. }
-      match goal with |- context [if ?c then _ else _] => destruct c end.
+      { destruct (has_flag flags f_strict); [exact I|]. apply HNone. }
+      clear HNone. match goal with |- context [if ?c then _ else _] => destruct c end.
       { eapply gd_mono; [|apply IHk]; fin. }
       eapply gd_bind with (mA := mp) (n := length r1).
       - apply gd_dee.
@@ -876,6 +885,8 @@ Proof.
   { intros; apply IHfuel; lia. }
   assert (Hdec0 : forall t' fl o, (tdepth t' < tdepth t)%nat -> gd mp (length b) (dec fuel p t' fl o b)).
   { intros; apply IHfuel; lia. }
+  assert (Hskip : forall ty r, (length r < length b)%nat -> gd ms (length r) (skip fuel p ty r)).
+  { intros ty r Hr. apply skip_ok. assert (1 <= tdepth t)%nat by (destruct t; simpl; lia). lia. }
   destruct t; unfold dec_body.
   - gb g_byte; fin.
   - gb g_byte; fin.
@@ -887,29 +898,37 @@ Proof.
   - gb g_bytes; fin.
   - (* list *) gb g_list. destruct a1 as [n lt]. cbv zeta.
     match goal with |- context [if ?c then _ else _] => destruct c end.
-    { destruct (has_flag flags f_strict); fin. }
+    { destruct (has_flag flags f_strict); [exact I|].
+      eapply gd_bind with (mA := ms) (n := S (length r1)); [apply g_sk_list with (N := length b); [exact Hskip | fin | fin]|].
+      intros r2 H2. fin. }
     destruct (n <? 0); [exact I|].
     eapply gd_mono; [|apply g_dl_list with (N := length b); [|fin|fin]]; [fin|].
     intros; apply Hdec; [simpl; lia | assumption].
   - (* set *) gb g_list. destruct a1 as [n lt]. cbv zeta.
     destruct (n <? 0); [exact I|]. destruct (n =? 0); [fin|].
     match goal with |- context [if ?c then _ else _] => destruct c end.
-    { destruct (has_flag flags f_strict); fin. }
+    { destruct (has_flag flags f_strict); [exact I|].
+      eapply gd_bind with (mA := ms) (n := S (length r1)); [apply g_sk_list with (N := length b); [exact Hskip | fin | fin]|].
+      intros r2 H2. fin. }
     eapply gd_mono; [|apply g_dl_set with (N := length b); [|fin|fin]]; [fin|].
     intros; apply Hdec; [simpl; lia | assumption].
   - (* map *) gb g_map. destruct a1 as [[n mk] mv].
     destruct (n <? 0); [exact I|]. destruct (n =? 0); [fin|].
     match goal with |- context [if ?c then _ else _] => destruct c end.
-    { destruct (has_flag flags f_strict); fin. }
+    { destruct (has_flag flags f_strict); [exact I|].
+      eapply gd_bind with (mA := ms) (n := S (length r1)); [apply g_sk_map with (N := length b); [exact Hskip | fin | fin]|].
+      intros r2 H2. fin. }
     match goal with |- context [if ?c then _ else _] => destruct c end.
-    { destruct (has_flag flags f_strict); fin. }
+    { destruct (has_flag flags f_strict); [exact I|].
+      eapply gd_bind with (mA := ms) (n := S (length r1)); [apply g_sk_map with (N := length b); [exact Hskip | fin | fin]|].
+      intros r2 H2. fin. }
     eapply gd_mono; [|apply g_dl_map with (N := length b); [| |fin|fin]]; [fin| |].
     + intros; apply Hdec; [simpl; lia | assumption].
     + intros; apply Hdec; [simpl; lia | assumption].
   - (* struct *) cbv zeta.
     eapply g_dl_struct with (N := length b).
     + intros fd fl o r Hin Hr. apply Hdec; [apply tdepth_field; assumption | assumption].
-    + intros ty r Hr. apply skip_ok. simpl in Hf. lia.
+    + exact Hskip.
     + apply lookup_in.
     + reflexivity.
     + lia.
